@@ -126,11 +126,18 @@ def reg(cls):
     return cls
 
 
+_WIDE = False      # set by configs() while it draws the additional *wide* configurations (their own random stream)
+
+
 def _shape2d(rng, lo=1, hi=5):
+    if _WIDE:
+        return [int(rng.choice([7, 9, 12, 17]))]
     return [int(rng.integers(lo, hi + 1))]
 
 
 def _shape_img(rng, cmin=1, cmax=4):
+    if _WIDE:
+        return [int(rng.choice([5, 6, 8])), int(rng.integers(1, 4)), int(rng.integers(1, 3))]
     return [int(rng.integers(cmin, cmax + 1)), int(rng.integers(1, 4)), int(rng.integers(1, 4))]
 
 
@@ -1243,6 +1250,21 @@ def configs(fams, tier, seed, n_random):
         rng = np.random.default_rng([seed, abs(hash_str(fam)) % (1 << 31)])
         for _ in range(n_random):
             out.append(f.sample_cfg(rng, tier))
+        # wide subjects (7-17 features, 5-8 channels) from a stream of their own, appended so that the configurations above
+        # keep their seeds: degree / index / ordering arithmetic that only shows beyond a handful of features
+        global _WIDE
+        wrng = np.random.default_rng([seed, abs(hash_str(fam)) % (1 << 31), 7])
+        _WIDE = True
+        try:
+            for _ in range(1 if tier == "quick" else max(2, n_random // 8)):
+                try:
+                    c = f.sample_cfg(wrng, tier)
+                except Exception:
+                    continue
+                if int(np.prod(c.get("shape", [1]))) >= 7:
+                    out.append(c)
+        finally:
+            _WIDE = False
     return out
 
 
